@@ -246,6 +246,8 @@ class Interp:
                         path.tags.pop(dk, None)
                     if 't' in t:
                         stack.append((t['t'], path))
+                    elif (t.get('mo') or '') in ('debug_assert', 'debug_assert_eq', 'debug_assert_ne'):
+                        continue    # a debug assertion failing: not part of the builds users run; the path on which it holds goes on
                     else:
                         self.n_paths += 1
                         out.append(('panic', path, self._panic_message(body, bb)))
